@@ -78,6 +78,14 @@ def _unit(x):
     return isinstance(x, Struct) and not x.fields
 
 
+def newtype(I, name, val):
+    """see Interp.newtype; I may be None (the facts of the current run are used)"""
+    from ..interp import Interp
+    if I is None:
+        I = Interp.CURRENT
+    return I.newtype(name, val)
+
+
 def inner(v):
     """the scalar inside nested single-field newtypes (no state needed)"""
     while isinstance(v, Struct):
